@@ -212,8 +212,73 @@ def debug_frame():
     return pr
 
 
+# the three buffered generators are newtypes over rand_core's BlockRng / BlockRng64 (dependency code, decided by the Kani harnesses
+# on the real rand_core); what the repository itself contributes is the forwarding, which must be verbatim
+FORWARD = {
+    'rand_hc': [('hc128', 'Hc128Rng', 'Hc128Core', 'BlockRng', 'hc128', 'C02', False)],
+    'rand_isaac': [('isaac', 'IsaacRng', 'IsaacCore', 'BlockRng', 'isaac', 'C03', True),
+                   ('isaac64', 'Isaac64Rng', 'Isaac64Core', 'BlockRng64', 'isaac64', 'C03', True)],
+}
+
+
+def forwarding():
+    """C05 / C09 / C02 / C03 (frame-style obligation): every RngCore and SeedableRng method of Hc128Rng, IsaacRng and Isaac64Rng is
+    exactly one call of the method of the same name on the wrapped BlockRng (resp. of BlockRng::<Core>::<constructor>), so the
+    wrapper behaves as rand_core's BlockRng over the core under contract.  A body of any other shape is UNDECIDED, never a violation:
+    it sends the property to the differential / Kani fallbacks."""
+    pr = PartResult('static:forwarding')
+    t0 = time.time()
+    pr.undecided_units = set()
+    for crate, ws in FORWARD.items():
+        try:
+            txt, _ = expand(crate)
+            cr = Crate(txt)
+        except (Undecided, AnchorLost) as e:
+            pr.undecided.append('%s: %s' % (crate, e))
+            continue
+        for mod, W, core, blk, unit, cprop, has_u64 in ws:
+            exp = {
+                '%s::RngCore@%s::next_u32' % (mod, W): ('{ self.0.next_u32() }', 'C05 ' + cprop),
+                '%s::RngCore@%s::next_u64' % (mod, W): ('{ self.0.next_u64() }', 'C05 ' + cprop),
+                '%s::RngCore@%s::fill_bytes' % (mod, W): ('{ self.0.fill_bytes(dest) }', 'C05 ' + cprop),
+                '%s::SeedableRng@%s::from_seed' % (mod, W): ('{ %s(%s::<%s>::from_seed(seed)) }' % (W, blk, core), 'C09 ' + cprop),
+                '%s::SeedableRng@%s::from_rng' % (mod, W): ('{ %s(%s::<%s>::from_rng(rng)) }' % (W, blk, core), 'C09'),
+                '%s::SeedableRng@%s::try_from_rng' % (mod, W): ('{ %s::<%s>::try_from_rng(rng).map(%s) }' % (blk, core, W), 'C09'),
+            }
+            if has_u64:
+                exp['%s::SeedableRng@%s::seed_from_u64' % (mod, W)] = ('{ %s(%s::<%s>::seed_from_u64(seed)) }' % (W, blk, core), 'C09')
+            # no further methods in these two impls (an added override is new code)
+            for tr in ('RngCore', 'SeedableRng'):
+                pre = '%s::%s@%s::' % (mod, tr, W)
+                for q in cr.order:
+                    if q.startswith(pre) and cr.index[q].kind == 'fn' and q not in exp and q.count('::') == pre.count('::'):
+                        exp[q] = (None, 'C05 ' + cprop if tr == 'RngCore' else 'C09')
+            for path, (want, props) in exp.items():
+                oid = 'forward:%s::%s' % (crate, path)
+                if path not in cr.index:
+                    st, msg, body = UNDECIDED, 'method not found (anchor lost)', ''
+                else:
+                    it = cr.index[path]
+                    body = re.sub(r'\s+', ' ', cr.text[it.body_open:it.body_close + 1]).strip()
+                    norm = lambda t: re.sub(r'\s+', '', t)
+                    if want is None:
+                        st, msg = UNDECIDED, 'method is not part of the committed forwarding table (new override)'
+                    elif norm(body) == norm(want):
+                        st, msg = DISCHARGED, ''
+                    else:
+                        st, msg = UNDECIDED, 'body is not the verbatim forwarding call %s' % want
+                if st == UNDECIDED:
+                    pr.undecided.append('%s: %s' % (path, msg))
+                    pr.undecided_units.add(unit)
+                pr.obs.append(Ob(oid, props.split(), st, 'rustc-expansion-scan', fn=crate + '::' + path, kind='forwarding',
+                                 text='body == %s' % want, detail=[] if st == DISCHARGED else [dict(message=msg, rendered=body[:600])]))
+    pr.cmd = 'scan of cargo +nightly rustc -- -Zunpretty=expanded output (BlockRng wrappers)'
+    pr.wall_s = time.time() - t0
+    return pr
+
+
 def run(name):
-    return dict(cfg_invariance=cfg_invariance, shared_state_scan=shared_state_scan, send_sync=send_sync, debug_frame=debug_frame, jumpcheck=jumpcheck)[name]()
+    return dict(cfg_invariance=cfg_invariance, shared_state_scan=shared_state_scan, send_sync=send_sync, debug_frame=debug_frame, jumpcheck=jumpcheck, forwarding=forwarding)[name]()
 
 
 def jumpcheck():
